@@ -270,5 +270,49 @@ func genTxFacts() (string, string) {
 		}
 		fmt.Fprintf(&b, "Definition %s : list string :=\n  [%s].\n", f.coq, strings.Join(q, "; "))
 	}
+	// the operations of a transaction OBJECT as critical sections of its own mutex: the body starts
+	// with recv.mu.Lock() followed by `defer recv.mu.Unlock()` and releases the mutex nowhere else,
+	// so a Commit / Rollback / clean-up from another goroutine waits for an operation in flight
+	// (and the operation cannot outlive the isolation lock its transaction holds)
+	var whole []string
+	for _, name := range []string{"Get", "Put", "Delete", "NewIterator", "NewRangeIterator", "Commit", "Rollback"} {
+		fd := decls["TransactionImpl."+name]
+		if fd == nil {
+			continue
+		}
+		whole = append(whole, fmt.Sprintf("(\"%s\", %v)", name, holdsOwnMutexThroughout(fd)))
+	}
+	fmt.Fprintf(&b, "Definition tx_mu_whole : list (string * bool) :=\n  [%s].\n", strings.Join(whole, "; "))
 	return "TxFacts.v", b.String()
+}
+
+// holdsOwnMutexThroughout: first statement recv.mu.Lock(), second `defer recv.mu.Unlock()`, and no
+// other call of recv.mu.Unlock / recv.mu.Lock anywhere in the body
+func holdsOwnMutexThroughout(fd *ast.FuncDecl) bool {
+	if fd.Recv == nil || len(fd.Recv.List) == 0 || len(fd.Recv.List[0].Names) == 0 || len(fd.Body.List) < 2 {
+		return false
+	}
+	recv := fd.Recv.List[0].Names[0].Name
+	es, ok := fd.Body.List[0].(*ast.ExprStmt)
+	if !ok {
+		return false
+	}
+	c, ok := es.X.(*ast.CallExpr)
+	if !ok || selChain(c.Fun) != recv+".mu.Lock" {
+		return false
+	}
+	ds, ok := fd.Body.List[1].(*ast.DeferStmt)
+	if !ok || selChain(ds.Call.Fun) != recv+".mu.Unlock" {
+		return false
+	}
+	n := 0
+	ast.Inspect(fd.Body, func(m ast.Node) bool {
+		if c, ok := m.(*ast.CallExpr); ok {
+			if ch := selChain(c.Fun); ch == recv+".mu.Unlock" || ch == recv+".mu.Lock" {
+				n++
+			}
+		}
+		return true
+	})
+	return n == 2
 }
